@@ -64,8 +64,8 @@ def check(tier, seed, replay=None):
             # its answer is the same as for the plain reader
             kinds = ["b:-", "f:-", "s:-", "u:" + scheds[-1]] if q % 2 == 0 or tier == "thorough" else ["bfsu"[q % 4] + ":" + scheds[-1 if q % 4 == 3 else 0]]
             for sch in scheds + kinds:
-                ops_go.append("SSEQ %s %s %s" % (",".join(d.name for d, _, _ in seq), sch, hexs + "eeee"))
-                ops_mo.append("SSEQ %s %s %s" % (",".join(str(d.id) for d, _, _ in seq), sch[2:] if sch[1:2] == ":" else sch, hexs + "eeee"))
+                ops_go.append("SSEQ %s %s %s" % (",".join(d.name for d, _, _ in seq), sch, (hexs if hexs != "-" else "") + "eeee"))
+                ops_mo.append("SSEQ %s %s %s" % (",".join(str(d.id) for d, _, _ in seq), sch[2:] if sch[1:2] == ":" else sch, (hexs if hexs != "-" else "") + "eeee"))
                 metas.append(seq)
         b = wirerun.build_package(s, 1, "cover")
         sp = wirerun.write_model_schema(s, "c05")
